@@ -18,23 +18,32 @@ What is extracted
   attributes; the flags go with the pattern (canonical long names joined by `|`);
 * the *scan set of an entry point* (`scan_closure`): for the function and every helper of the same source file it
   reaches (`self.X`, `cls.X`, `Class.X`, module level functions; transitively) —
-    - every regex call: `re.search/match/fullmatch/split/sub/subn/findall/finditer/compile`, the same methods of a
-      compiled pattern (reported as the `re.` function with the pattern's text and flags), and the ciscoconfparse2
-      helpers whose name starts with `re_` (`re_match`, `re_match_typed`, `re_match_iter_typed`, …); for `re.sub` the
-      replacement text too; a pattern that is not a constant is `<dynamic>` (its flags are still recorded), a constant
-      frame around a non-constant part is a `…-template`;
-    - (kind `str`) `str.split / rsplit / partition / rpartition / startswith / endswith / replace / …` with literal
-      arguments, argument-less `split()` / `splitlines()`, `"lit".join(…)`;
+    - (kind `re`) every regex call: `re.search/match/fullmatch/split/sub/subn/findall/finditer/compile`, the same
+      methods of a compiled pattern (reported as the `re.` function with the pattern's text and flags), and the
+      ciscoconfparse2 helpers whose name starts with `re_` (`re_match`, `re_match_typed`, `re_match_iter_typed`, …); for
+      `re.sub` the replacement text too; a pattern that is not a constant is `<dynamic>` (its flags are still recorded),
+      a constant frame around a non-constant part is a `…-template`.  The pattern is reported in CANONICAL FORM
+      (`normalise_pattern`, `strip_verbose`): compiled with `re.VERBOSE` → canonical verbose form and no VERBOSE flag;
+      group names removed; redundant escapes removed; one item per value when a helper receives the pattern (or a part
+      of it) as an argument from its call sites (`call_site_bindings`) or a local name in it ranges over a constant
+      collection (`if kw in ("add", "remove"):`, `for kw in (...)`: `_context_values`); a search that cannot fail (`.*`)
+      is left out;
+    - (kind `sep`) the separator arguments of `str.split / rsplit / partition / rpartition / replace / strip / lstrip /
+      rstrip` (literals or named constants), argument-less `split()` / `splitlines()`, `"sep".join(…)`;
+  as a sorted duplicate-free list of triples `(what, text, flags or detail)` — these are the OBLIGATIONS
+  (`regexes_as_modelled`).  Next to it, as an INFORMATIONAL definition `<name>Info` no theorem is about —
+    - (kind `test`) `str.startswith / endswith / find / index / count` with literal arguments;
     - (kind `in`) `"lit" in <expr>`;  (kind `cmp`) comparisons of an expression with a `str` literal or a list / tuple /
-      set of `str` literals, with the constant subscript of the other side (`[0:10]`, `[0:21].lower()`) as detail;
-  as a sorted duplicate-free list of triples `(what, text, flags or detail)`.
+      set of `str` literals, with the constant subscript of the other side (`[0:10]`, `[0:21].lower()`) as detail:
+  these are control flow around the scanners, not scanner text; a refactor that reads regex groups into locals, hoists a
+  `.split()` or merges branches changes them although no regex changed (harmless/C15, C19, C20), so they are recorded
+  but not tied.
 
 What deliberately does NOT change a scan set (harmless rewrites must not break an obligation): line breaks, comments,
-docstrings, renaming a local variable or a constant, binding a pattern to a name first, hoisting it into a compiled
-module constant (or the reverse), moving a test into a helper method of the same file (or out of one), re-ordering or
-repeating tests, negating a test (`!=` is reported as `==`, `not in` as `in`).  A pattern compiled with `re.VERBOSE`
-is reported in its *canonical verbose form* (`strip_verbose`: white space and `#` comments outside character classes
-removed, exactly what `re`'s parser skips), so re-indenting it or editing a comment inside it changes nothing either.
+docstrings, renaming a local variable, a constant or a regex group, binding a pattern to a name first, hoisting it into a
+compiled module constant (or the reverse), passing it to a helper as an argument, moving a test into a helper method of
+the same file (or out of one), re-ordering or repeating tests, escaping a colon that needs no escape, re-indenting a `re.VERBOSE`
+pattern, editing a comment inside it, or compiling its canonical form without the flag.
 
 When /repo changes a modelled regex on purpose (a `fix:` commit): adapt the scanner in lean/Ccp/Model/*.lean first, let
 the correspondence confirm it, and only then update the literal in lean/Ccp/Props/RxCxx.lean (the literals there are
@@ -116,8 +125,14 @@ class Scope:
     the name in that function is a string constant expression with one and the same value; then the class body;
     then the module's top level (also inside top-level if / try)"""
 
-    def __init__(self, module, cls=None, func=None, loader=None):
+    def __init__(self, module, cls=None, func=None, loader=None, fixed=None):
         self.module, self.cls, self.func, self.loader = module, cls, func, loader
+        # names of the function whose value is known from the context the function is scanned in: a parameter that a
+        # call site binds to a constant, a name inside `if name in ("a", "b"):` / `for name in ("a", "b"):`
+        self.fixed = dict(fixed or {})
+
+    def with_fixed(self, more):
+        return Scope(self.module, self.cls, self.func, self.loader, dict(self.fixed, **more))
 
     @staticmethod
     def _bindings(nodes, name):
@@ -235,7 +250,33 @@ def _name_of(node):
 
 
 def str_const(node, scope, depth=0):
-    """value of a string constant expression (see the module docstring); NotConstant otherwise"""
+    """value of a string constant expression (see the module docstring); NotConstant otherwise.
+    What the rules below do not cover is handed to the general constant-expression evaluator (harness/constexpr.py:
+    `"|".join(KEYWORDS)` over a tuple bound to a name, `string.digits`, a conditional expression, a subscript …), so
+    that a pattern whose definition was re-spelled is still found; its value must be a `str`."""
+    try:
+        return _str_const_basic(node, scope, depth)
+    except NotConstant as first:
+        if depth > 40:
+            raise
+        import constexpr
+        try:
+            v = constexpr.ceval(node, scope, dict(scope.fixed))
+        except NotConstant:
+            raise first
+        except RecursionError:
+            raise first
+        if not isinstance(v, str):
+            raise first
+        return v
+
+
+def _str_const_basic(node, scope, depth=0):
+    if isinstance(node, ast.Name) and node.id in scope.fixed:
+        v = scope.fixed[node.id]
+        if isinstance(v, str):
+            return v
+        raise NotConstant(f"`{node.id}` is not a str here")
     if depth > 40:
         raise NotConstant("constant expression nested too deeply (a cycle?)")
     if isinstance(node, ast.Constant):
@@ -410,9 +451,11 @@ def _literal_strs(node):
     return None
 
 
-def _slice_text(node):
+def _slice_text(node, scope=None, depth=0):
     """`x[0:10]` → "[0:10]", `x.split()[0]` → "[0]", `line[0:21].lower()` → "[0:21].lower()" (only the subscript and
-    argument-less methods behind it, never a variable name)"""
+    argument-less methods behind it, never a variable name).  `m.group("name")` reads the field `m.groupdict()["name"]`
+    reads and is shown like it; a local name that is bound to one expression (apart from `= None` initialisations)
+    stands for that expression, so binding a field to a local first changes nothing."""
     tail = ""
     while isinstance(node, ast.Call) and isinstance(node.func, ast.Attribute) and not node.args and not node.keywords:
         tail = "." + node.func.attr + "()" + tail
@@ -426,6 +469,17 @@ def _slice_text(node):
                 return "[" + ast.unparse(sl) + "]" + tail
         elif isinstance(sl, ast.Constant) or (isinstance(sl, ast.UnaryOp) and isinstance(sl.operand, ast.Constant)):
             return "[" + ast.unparse(sl) + "]" + tail
+    if isinstance(node, ast.Call) and isinstance(node.func, ast.Attribute) and node.func.attr == "group" and len(node.args) == 1 \
+            and not node.keywords and isinstance(node.args[0], ast.Constant) and isinstance(node.args[0].value, str):
+        return "[" + ast.unparse(node.args[0]) + "]" + tail
+    if isinstance(node, ast.Name) and scope is not None and scope.func is not None and depth < 5:
+        vals, _, where = scope.lookup(node.id)
+        if where == "function":
+            vals = [v for v in vals if not (isinstance(v, ast.Constant) and v.value is None)]
+            if vals and all(v is not None for v in vals) and len({ast.dump(v) for v in vals}) == 1:
+                inner = _slice_text(vals[0], scope, depth + 1)
+                if inner:
+                    return inner + tail
     return ""
 
 
@@ -454,9 +508,186 @@ def _repl_text(node, scope, depth=0):
     return DYNAMIC
 
 
-def scan_function(func, scope, kinds=("re", "str", "in", "cmp"), distinct=True):
-    """the scan list of a function: [(callee, text, detail)] in source order (see the module docstring)"""
+NEVER_SPECIAL_OUTSIDE = set("!\"#%&',-/:;<=>@_`~")
+NEVER_SPECIAL_IN_CLASS = set("!\"#%&',/:;<=>@_`~.$*+?{}()|")
+
+
+def normalise_pattern(p):
+    """canonical text of a (non-verbose) pattern: what the regex engine does not distinguish is written one way —
+    * a named group `(?P<name>…)` is written `(…)`, a named back-reference `(?P=name)` / conditional `(?(name)…)` by the
+      group's number (the *names* are the code's business: a renamed group with its `.group("…")` calls renamed alike is
+      the same scanner);
+    * `\\c` for a character that is never special (`\\:` `\\/` `\\,` `\\-` outside a class, `\\.` `\\:` … inside one) is
+      written `c`.
+    Everything else is kept as it is (no regex is rewritten into an equivalent one of another shape)."""
     out = []
+    names = {}
+    ngroups = 0
+    i, n, in_cls = 0, len(p), False
+    while i < n:
+        c = p[i]
+        if c == "\\" and i + 1 < n:
+            d = p[i + 1]
+            if (in_cls and d in NEVER_SPECIAL_IN_CLASS) or (not in_cls and d in NEVER_SPECIAL_OUTSIDE):
+                out.append(d)
+            else:
+                out.append(c + d)
+            i += 2
+            continue
+        if in_cls:
+            out.append(c)
+            if c == "]":
+                in_cls = False
+            i += 1
+            continue
+        if c == "[":
+            in_cls = True
+            out.append(c)
+            i += 1
+            if i < n and p[i] == "^":
+                out.append("^")
+                i += 1
+            if i < n and p[i] == "]":
+                out.append("]")
+                i += 1
+            continue
+        if c == "(":
+            if p.startswith("(?P<", i):
+                j = p.find(">", i)
+                if j > 0:
+                    ngroups += 1
+                    names[p[i + 4:j]] = ngroups
+                    out.append("(")
+                    i = j + 1
+                    continue
+            if p.startswith("(?P=", i):
+                j = p.find(")", i)
+                if j > 0 and p[i + 4:j] in names:
+                    out.append("\\%d" % names[p[i + 4:j]])
+                    i = j + 1
+                    continue
+            if p.startswith("(?(", i):
+                j = p.find(")", i)
+                if j > 0 and p[i + 3:j] in names:
+                    out.append("(?(%d)" % names[p[i + 3:j]])
+                    i = j + 1
+                    continue
+            if not p.startswith("(?", i):
+                ngroups += 1
+        out.append(c)
+        i += 1
+    return "".join(out)
+
+
+SEP_FUNCS = {"split", "rsplit", "partition", "rpartition", "replace", "join", "strip", "lstrip", "rstrip", "splitlines"}
+ALWAYS_TRUE = {".*"}
+MAX_EXPANSION = 32
+
+
+def _str_collection(node, scope):
+    """a constant list / tuple / set / frozenset of str (or one str: `name == "x"`) → sorted values; else None"""
+    try:
+        import constexpr
+        v = constexpr.ceval(node, scope, dict(scope.fixed))
+    except (NotConstant, RecursionError):
+        return None
+    if isinstance(v, str):
+        return None
+    if isinstance(v, (list, tuple, set, frozenset)) and v and all(isinstance(x, str) for x in v) and len(v) <= MAX_EXPANSION:
+        return sorted(set(v))
+    return None
+
+
+def _context_values(name, node, parents, scope):
+    """the finite set of str values the local `name` can have at `node`, known from the enclosing control flow:
+    the body of `if name in <constant collection>:` / `if name == "lit":`, the body of `for name in <constant
+    collection>:`, a comprehension over one; else None"""
+    child, up = node, parents.get(id(node))
+    while up is not None and not isinstance(up, (ast.FunctionDef, ast.AsyncFunctionDef, ast.Lambda)):
+        if isinstance(up, ast.If) and any(child is st for st in up.body):
+            tests = up.test.values if (isinstance(up.test, ast.BoolOp) and isinstance(up.test.op, ast.And)) else [up.test]
+            for t in tests:
+                if isinstance(t, ast.Compare) and len(t.ops) == 1 and isinstance(t.left, ast.Name) and t.left.id == name:
+                    if isinstance(t.ops[0], ast.In):
+                        vals = _str_collection(t.comparators[0], scope)
+                        if vals:
+                            return vals
+                    elif isinstance(t.ops[0], ast.Eq):
+                        try:
+                            return [str_const(t.comparators[0], scope)]
+                        except NotConstant:
+                            pass
+        if isinstance(up, (ast.For, ast.AsyncFor)) and isinstance(up.target, ast.Name) and up.target.id == name \
+                and any(child is st for st in up.body):
+            vals = _str_collection(up.iter, scope)
+            if vals:
+                return vals
+        if isinstance(up, (ast.ListComp, ast.SetComp, ast.GeneratorExp, ast.DictComp)):
+            for g in up.generators:
+                if isinstance(g.target, ast.Name) and g.target.id == name:
+                    vals = _str_collection(g.iter, scope)
+                    if vals:
+                        return vals
+        child, up = up, parents.get(id(up))
+    return None
+
+
+def _expansions(expr, at, parents, scope):
+    """the environments (name → str) under which a pattern expression that is not constant becomes constant: every
+    local name of the expression whose possible values are known from the control flow around `at` ranges over them
+    (see `_context_values`); [] when some name has no such set or there are too many combinations"""
+    names = []
+    for x in ast.walk(expr):
+        if isinstance(x, ast.Name) and isinstance(x.ctx, ast.Load) and x.id not in names and x.id not in scope.fixed:
+            vals, _, where = scope.lookup(x.id)
+            if where in ("function", "parameter"):
+                names.append(x.id)
+    sets = []
+    for nm in names:
+        vals = _context_values(nm, at, parents, scope)
+        if vals:
+            sets.append((nm, vals))
+    if not sets:
+        return []
+    import itertools
+    total = 1
+    for _, v in sets:
+        total *= len(v)
+    if total > MAX_EXPANSION:
+        return []
+    return [dict(zip([nm for nm, _ in sets], combo)) for combo in itertools.product(*[v for _, v in sets])]
+
+
+def scan_function(func, scope, kinds=("re", "str", "in", "cmp"), distinct=True, normalise=True):
+    """the scan list of a function: [(callee, text, detail)] in source order (see the module docstring).
+    kinds: `re` regex-engine calls; `sep` separator arguments of str.split / join / replace / strip …; `test` literal
+    arguments of str.startswith / endswith / find …; `in` `"lit" in x`; `cmp` comparisons with literals (`str` = `sep` +
+    `test`).  With `normalise` a pattern is reported in canonical form: canonical verbose form WITHOUT the VERBOSE flag
+    when it is compiled with re.VERBOSE, group names and redundant escapes removed (`normalise_pattern`), one item per
+    value when a local name of the pattern is known to range over a constant collection, and a pattern that cannot fail
+    (`.*`) is not reported."""
+    if "str" in kinds:
+        kinds = tuple(kinds) + ("sep", "test")
+    parents = {}
+    for x in ast.walk(func):
+        for ch in ast.iter_child_nodes(x):
+            parents[id(ch)] = x
+
+    def canon(pat, flags):
+        if not normalise:
+            return pat, flags
+        fl = [f for f in flags.split("|") if f]
+        if "VERBOSE" in fl:
+            fl.remove("VERBOSE")              # strip_verbose() was applied: the text no longer needs the flag
+        return normalise_pattern(pat), "|".join(fl)
+
+    out = []
+
+    def add(callee, pat, detail):
+        if normalise and pat in ALWAYS_TRUE and callee.startswith(("re.", ".re_")):
+            return
+        out.append((callee, pat, detail))
+
     for n in _own_nodes(func):
         if isinstance(n, ast.Call) and isinstance(n.func, ast.Attribute):
             attr = n.func.attr
@@ -481,36 +712,63 @@ def scan_function(func, scope, kinds=("re", "str", "in", "cmp"), distinct=True):
                         except NotConstant:
                             fl = DYNAMIC
                     if parg is None:
-                        out.append((callee, DYNAMIC, fl))
+                        add(callee, DYNAMIC, fl)
                         continue
+                    scopes = [scope]
                     try:
-                        pat, fl0 = pattern_const(parg, scope)
+                        pattern_const(parg, scope)
                     except NotConstant:
-                        t = template_const(parg, scope)
-                        out.append((callee, t[0], (t[1] + " " + fl).strip()) if t else (callee, DYNAMIC, fl))
-                        continue
-                    if "VERBOSE" in fl.split("|"):
-                        pat = strip_verbose(pat)
-                    detail = fl or fl0
-                    if is_re_mod and attr in ("sub", "subn") and len(n.args) >= 2:
-                        # the replacement text belongs to the scanner as much as the pattern
-                        detail = (detail + " repl=" + _repl_text(n.args[1], scope)).strip()
-                    out.append((callee, pat, detail))
+                        envs = _expansions(parg, n, parents, scope) if normalise else []
+                        try:
+                            for e in envs:
+                                pattern_const(parg, scope.with_fixed(e))
+                            scopes = [scope.with_fixed(e) for e in envs]
+                        except NotConstant:
+                            scopes = []
+                        if not scopes:
+                            t = template_const(parg, scope)
+                            if t:
+                                tp, _ = canon(t[0], "")
+                                add(callee, tp, (t[1] + " " + canon("", fl)[1]).strip())
+                            else:
+                                add(callee, DYNAMIC, canon("", fl)[1] if fl != DYNAMIC else fl)
+                            continue
+                    for sc in scopes:
+                        pat, fl0 = pattern_const(parg, sc)
+                        if "VERBOSE" in fl.split("|"):
+                            pat = strip_verbose(pat)
+                        pat, detail = canon(pat, fl or fl0) if fl != DYNAMIC else (canon(pat, "")[0], fl)
+                        if is_re_mod and attr in ("sub", "subn") and len(n.args) >= 2:
+                            # the replacement text belongs to the scanner as much as the pattern
+                            detail = (detail + " repl=" + _repl_text(n.args[1], sc)).strip()
+                        add(callee, pat, detail)
                     continue
                 if is_compiled:
                     # `<compiled pattern>.search(x)` is reported exactly like `re.search(<its text>, x, <its flags>)`, so
                     # hoisting a pattern into a compiled constant (or the reverse), or renaming the constant, changes nothing
                     try:
                         pat, fl = pattern_const(recv, scope)
+                        pat, fl = canon(pat, fl)
                     except NotConstant:
                         pat, fl = DYNAMIC, ""
-                    out.append(("re." + attr, pat, fl))
+                    add("re." + attr, pat, fl)
                     continue
-            if "str" in kinds and attr in STR_FUNCS and not (isinstance(recv, ast.Name) and recv.id == "re"):
+            want = "sep" if attr in SEP_FUNCS else "test"
+            if want in kinds and attr in STR_FUNCS and not (isinstance(recv, ast.Name) and recv.id == "re"):
                 lits = [_literal_strs(a) for a in n.args]
+                if want == "sep":
+                    # a separator hoisted into a named constant is still that separator
+                    for i, a in enumerate(n.args):
+                        if lits[i] is None and not isinstance(a, ast.Starred):
+                            try:
+                                lits[i] = str_const(a, scope)
+                            except NotConstant:
+                                pass
                 if attr == "join":
-                    if isinstance(recv, ast.Constant) and isinstance(recv.value, str):
-                        out.append(("str.join", recv.value, ""))
+                    try:
+                        out.append(("str.join", str_const(recv, scope), ""))
+                    except NotConstant:
+                        pass
                     continue
                 if attr in ("split", "rsplit", "strip", "lstrip", "rstrip", "splitlines") and not n.args and not n.keywords:
                     if attr in ("split", "rsplit", "splitlines"):
@@ -530,7 +788,7 @@ def scan_function(func, scope, kinds=("re", "str", "in", "cmp"), distinct=True):
                 side = "lit " + op if ll is not None else op
                 kind = "in" if side == "lit in" else "cmp"
                 if kind in kinds and lit != "":
-                    out.append((side, lit, _slice_text(other)))
+                    out.append((side, lit, _slice_text(other, scope)))
     if distinct:
         seen, uniq = set(), []
         for t in out:
@@ -634,17 +892,104 @@ def reach(tree, cls, func_name, stop=()):
     return order
 
 
-def scan_closure(tree, cls, func_name, kinds, loader, stop=()):
-    """the scan SET of an entry point: the scan lists of the function and of every same-file helper it reaches, as a
-    sorted duplicate-free list.  Moving a regex between the function and a helper (or a base class of the file),
-    re-ordering the tests, repeating one, negating one, hoisting a pattern into a compiled constant or renaming a
-    constant or a local variable changes nothing; changing the text of a pattern, its flags, a separator or a keyword
-    does.  → (items, names of the functions reached)"""
-    items = set()
-    fs = reach(tree, cls, func_name, stop)
+OBLIGATION_KINDS = ("re", "sep")
+INFO_KINDS = ("test", "in", "cmp")
+MAX_CALL_SITES = 16
+
+
+def _params_of(cls, f):
+    """the parameters a call binds, in order (without `self` / `cls` of a method that is not a staticmethod)"""
+    names = [a.arg for a in f.args.posonlyargs + f.args.args]
+    decos = [ast.unparse(d) for d in f.decorator_list]
+    if cls is not None and "staticmethod" not in decos and names:
+        names = names[1:]
+    return names, [a.arg for a in f.args.kwonlyargs]
+
+
+def call_site_bindings(tree, fs, loader):
+    """{id(function): [ {parameter: str constant} … ]} — for every reached helper, the constant string arguments its call
+    sites inside the reached functions pass (one environment per distinct combination).  A helper that is also called
+    with a non-constant argument, read without being called, or the entry point itself gets the empty environment too,
+    so its body is scanned with that parameter unknown as well."""
+    classes = {n.name: n for n in tree.body if isinstance(n, ast.ClassDef)}
+    by_name = {}
     for c, f in fs:
-        items.update(scan_function(f, Scope(tree, c, f, loader), kinds, distinct=False))
-    return sorted(items), sorted(f.name if c is None else f"{c.name}.{f.name}" for c, f in fs)
+        by_name.setdefault(f.name, []).append((c, f))
+    out = {id(f): [] for _, f in fs}
+    if fs:
+        out[id(fs[0][1])].append({})
+    for c, f in fs:
+        sc = Scope(tree, c, f, loader)
+        called = set()
+        for n in ast.walk(f):
+            if not isinstance(n, ast.Call):
+                continue
+            target = None
+            if isinstance(n.func, ast.Attribute) and isinstance(n.func.value, ast.Name) \
+                    and (n.func.value.id in ("self", "cls") or n.func.value.id in classes):
+                target = n.func.attr
+            elif isinstance(n.func, ast.Name):
+                target = n.func.id
+            if target not in by_name:
+                continue
+            called.add(id(n.func))
+            for c2, f2 in by_name[target]:
+                pos, kwonly = _params_of(c2, f2)
+                env, complete = {}, True
+                for nm, a in zip(pos, n.args):
+                    if isinstance(a, ast.Starred):
+                        complete = False
+                        break
+                    try:
+                        env[nm] = str_const(a, sc)
+                    except NotConstant:
+                        pass
+                for k in n.keywords:
+                    if k.arg is None:
+                        complete = False
+                    elif k.arg in pos or k.arg in kwonly:
+                        try:
+                            env[k.arg] = str_const(k.value, sc)
+                        except NotConstant:
+                            pass
+                if not complete:
+                    env = {}
+                if env not in out[id(f2)]:
+                    out[id(f2)].append(env)
+        # a reference that is not a call (a property read, a callback): the parameters are unknown
+        for n in ast.walk(f):
+            if isinstance(n, ast.Attribute) and id(n) not in called and isinstance(n.value, ast.Name) \
+                    and (n.value.id in ("self", "cls") or n.value.id in classes) and n.attr in by_name:
+                for _, f2 in by_name[n.attr]:
+                    if {} not in out[id(f2)]:
+                        out[id(f2)].append({})
+    for k, envs in out.items():
+        if not envs or len(envs) > MAX_CALL_SITES:
+            out[k] = [{}]
+    return out
+
+
+def scan_closure(tree, cls, func_name, kinds, loader, stop=(), normalise=True):
+    """the scan SET of an entry point: the scan lists of the function and of every same-file helper it reaches, as a
+    sorted duplicate-free list.  A helper is scanned once per combination of constant string arguments its call sites
+    pass (`call_site_bindings`), so a pattern handed to a helper as an argument is the pattern.  Moving a regex between
+    the function and a helper (or a base class of the file), passing it as an argument, re-ordering the tests, repeating
+    one, hoisting a pattern into a compiled constant or renaming a constant, a group or a local variable changes nothing;
+    changing the text of a pattern, its flags, a replacement or a separator does.
+    → (obligation items: kinds `re` / `sep`, informational items: kinds `test` / `in` / `cmp`, names of the functions reached)"""
+    if "str" in kinds:
+        kinds = tuple(kinds) + ("sep", "test")
+    items, info = set(), set()
+    fs = reach(tree, cls, func_name, stop)
+    envs = call_site_bindings(tree, fs, loader)
+    ob_kinds = tuple(k for k in kinds if k in OBLIGATION_KINDS)
+    in_kinds = tuple(k for k in kinds if k in INFO_KINDS)
+    for c, f in fs:
+        for env in envs[id(f)]:
+            items.update(scan_function(f, Scope(tree, c, f, loader, env), ob_kinds, distinct=False, normalise=normalise))
+        if in_kinds:
+            info.update(scan_function(f, Scope(tree, c, f, loader), in_kinds, distinct=False, normalise=normalise))
+    return sorted(items), sorted(info), sorted(f.name if c is None else f"{c.name}.{f.name}" for c, f in fs)
 
 
 def lean_triples(items, lean_str):
@@ -803,30 +1148,38 @@ def emit_all(src, emit, lean_str):
 
     def t_scan(lean, fn, cls, func, kinds, stop, label):
         def go():
-            items, reached = closure(fn, cls, func, kinds, stop)
+            items, info, reached = closure(fn, cls, func, kinds, stop)
             left_out = NOT_MODELLED.get((cls, func), ())
             n0 = len(items)
             items = [t for t in items if not any(t[1].startswith(p) for p in left_out)]
             if left_out and len(items) == n0:
                 raise KeyError(f"{cls}.{func}: nothing starts with {left_out} any more (NOT_MODELLED is stale)")
-            if not items:
+            if not items and not info:
                 raise KeyError(f"{cls + '.' if cls else ''}{func} in {fn} contains none of the scanned constructs any more")
             via = [r for r in reached if r != (f"{cls}.{func}" if cls else func)]
+            ob = [k for k in ("re", "sep") if k in kinds or (k == "sep" and "str" in kinds)]
             text = (f"/-- {label}scan set of `{fn}: {cls + '.' if cls else ''}{func}`"
                     + (f" (never entering {', '.join(stop)})" if stop else "")
-                    + f"; kinds {'/'.join(kinds)};\nsorted: (what, text, flags or detail)"
+                    + f"; kinds {'/'.join(ob)} (regex-engine calls with the pattern in canonical form, separator arguments);\n"
+                    "sorted: (what, text, flags or detail)"
                     + (f"; helpers reached now: {', '.join(via)}" if via else "")
                     + (f"; left out (not modelled): pattern texts starting with {', '.join(left_out)}" if left_out else "") + " -/\n"
-                    f"def {lean} : List (String × String × String) :=\n  {lean_triples(items, lean_str)}\n")
-            return text, len(items)
+                    f"def {lean} : List (String × String × String) :=\n  {lean_triples(items, lean_str)}\n"
+                    f"/-- INFORMATIONAL, no theorem is about it: the literal tests of the same functions (`\"lit\" in …`, comparisons with\n"
+                    f"string literals, str.startswith / endswith / find …) with the constant subscript of the other side -/\n"
+                    f"def {lean}Info : List (String × String × String) :=\n  {lean_triples(info, lean_str)}\n")
+            return text, {"obligation": len(items), "informational": len(info)}
         return go
 
+    triples = "List (String × String × String)"
     for lean, fn, cls, func, kinds, stop, props in ENTRIES:
-        emit(f"[{props}] {lean}", t_scan(lean, fn, cls, func, kinds, stop, ""))
+        emit(f"[{props}] {lean}", t_scan(lean, fn, cls, func, kinds, stop, ""), serves=tuple(props.split(",")),
+             defs_=[(lean, triples)])
     for cls, accs in IOS_ACCESSORS:
         for a in accs:
             lean = ios_lean_name(cls, a)
-            emit(f"[C19] {lean}", t_scan(lean, "models_cisco.py", cls, a, ALL, (), "C19: "))
+            emit(f"[C19] {lean}", t_scan(lean, "models_cisco.py", cls, a, ALL, (), "C19: "), serves=("C19",),
+                 defs_=[(lean, triples)])
 
     def t_cli_defaults():
         tree = src.tree("cli_script.py")
@@ -851,7 +1204,8 @@ def emit_all(src, emit, lean_str):
                 f"def rxCliArgDefaults : List (String × String) :=\n  {lean_pairs(sorted(set(rows)), lean_str)}\n"
                 f"def rxCliGetattrDefaults : List (String × String) :=\n  {lean_pairs(sorted(set(g)), lean_str)}\n"), \
             {"options": len(rows), "getattr": len(g)}
-    emit("[C18] rxCliDefaults", t_cli_defaults)
+    emit("[C18] rxCliDefaults", t_cli_defaults, serves=("C18",),
+         defs_=[("rxCliArgDefaults", "List (String × String)"), ("rxCliGetattrDefaults", "List (String × String)")])
 
     def t_brace():
         tree = src.tree("ciscoconfparse2.py")
@@ -909,4 +1263,7 @@ def emit_all(src, emit, lean_str):
                 f"def ppNestedExprIgnoreDefault : String := {lean_str(ig_default)}\n"
                 f"def ppParseAllDefault : String := {lean_str(repr(pa.default) if pa is not None else 'absent')}\n"), \
             {"pyparsing": pp.__version__, "calls": len(rows)}
-    emit("[C08] rxBrace", t_brace)
+    emit("[C08] rxBrace", t_brace, serves=("C08",),
+         defs_=[("rxBraceCalls", "List (String × String)"), ("ppPrintables", "String"), ("ppDefaultWhiteChars", "String"),
+                ("ppQuotedStringRegexes", "List String"), ("ppNestedExprIgnoreDefault", "String"),
+                ("ppParseAllDefault", "String")])
